@@ -162,6 +162,26 @@ Definition calculate (states : list snapshot) : res output :=
   | _, _ => Panic "calculate: dates[drawdown position] out of bounds"
   end.
 
+(* perf::Frequency and its String conversion; annualize_returns / annualize_volatility panic for every frequency
+   but Daily. The struct literal of calculate evaluates `ret`, then `cagr` (the first use of the frequency), so
+   every panic [calculate] models happens before the frequency one. *)
+Inductive frequency := FSecond | FDaily | FFixed.
+Definition frequency_name (f : frequency) : string :=
+  match f with FSecond => "SECOND" | FDaily => "DAILY" | FFixed => "FIXED" end.
+
+(* PerformanceCalculator::calculate(freq, states) -> (output, output.frequency) *)
+Definition calculate_freq (f : frequency) (states : list snapshot) : res (output * string) :=
+  match calculate states with
+  | Panic s => Panic s
+  | BadOracle => BadOracle
+  | Ok o =>
+      match f with
+      | FDaily => Ok (o, frequency_name f)
+      | FSecond => Panic "No performance stats by second"
+      | FFixed => Panic "No performance stats by fixed"
+      end
+  end.
+
 End Perf.
 
 Arguments snapshot F : clear implicits.
